@@ -125,6 +125,39 @@ static lp_polynomial_t* scenario(int* kind) {
     else if (t == 1) T = P_sub(P_var(0, 2), P_const(1));
     else if (t == 2) T = P_sub(P_scale(P_var(0, 2), N), P_const(N + 1));
     else T = P_mul(P_sub(P_var(0, 2), P_const(1)), P_add(P_var(1, 2), P_const(1)));
+  } else if (k < 95) {
+    /* the zero test's root bound at its limit: g(z) = M(z + .. + z^n) - a with a = 2^s, M = 2^(s+t) - 1 has its positive root just
+       below 2^-t although max|c_i| / |c_0| < 2^t; x0 := the root of g(A*x - B) next to B/A (A = 2^m), given with an isolating
+       interval that makes the first enclosure of p = A*x0 - B contain 0 and the value and still fit into (-2^-t, 2^-t) */
+    *kind = 9;
+    unsigned sft = rnd(3), t = 1 + rnd(3), n = 2 + rnd(3), m = 14 + rnd(8); long Bv = 1 + 2 * (long)rnd(16);
+    long a = 1L << sft, Mv = (1L << (sft + t)) - 1;
+    /* f(x) = M * sum_{i=1..n} (A x - B)^i - a */
+    long lin[2] = { -Bv, 1L << m };
+    lp_upolynomial_t* L = lp_upolynomial_construct_from_long(lp_Z, 1, lin);
+    lp_upolynomial_t* acc = 0;
+    for (unsigned i = 1; i <= n; ++i) { lp_upolynomial_t* pw = lp_upolynomial_pow(L, i); if (!acc) acc = pw; else { lp_upolynomial_t* s2 = lp_upolynomial_add(acc, pw); lp_upolynomial_delete(acc); lp_upolynomial_delete(pw); acc = s2; } }
+    lp_integer_t Mz; lp_integer_construct_from_int(lp_Z, &Mz, Mv);
+    lp_upolynomial_t* Macc = lp_upolynomial_mul_c(acc, &Mz); lp_integer_destruct(&Mz); lp_upolynomial_delete(acc);
+    long ca[1] = { a }; lp_upolynomial_t* ac = lp_upolynomial_construct_from_long(lp_Z, 0, ca);
+    lp_upolynomial_t* f = lp_upolynomial_sub(Macc, ac); lp_upolynomial_delete(Macc); lp_upolynomial_delete(ac); lp_upolynomial_delete(L);
+    /* interval (B/A - 2^-(m+t+1), B/A + (1 - 2^-(t+2)) * 2^-(m+t)) */
+    lp_dyadic_rational_t lo, hi, d; lp_dyadic_rational_construct_from_int(&lo, Bv, m); lp_dyadic_rational_construct_from_int(&hi, Bv, m);
+    lp_dyadic_rational_construct_from_int(&d, 1, m + t + 1); lp_dyadic_rational_sub(&lo, &lo, &d); lp_dyadic_rational_destruct(&d);
+    lp_dyadic_rational_construct_from_int(&d, (1L << (t + 2)) - 1, m + t + t + 2); lp_dyadic_rational_add(&hi, &hi, &d); lp_dyadic_rational_destruct(&d);
+    /* the interval must isolate the root (for small n the root lies a little further out): otherwise use the plain point B/A */
+    if (lp_upolynomial_sgn_at_dyadic_rational(f, &lo) * lp_upolynomial_sgn_at_dyadic_rational(f, &hi) < 0) {
+      lp_dyadic_interval_t I; lp_dyadic_interval_construct(&I, &lo, 1, &hi, 1);
+      lp_algebraic_number_t an; lp_algebraic_number_construct(&an, f, &I);
+      lp_value_construct(&vals[0], LP_VALUE_ALGEBRAIC, &an); lp_algebraic_number_destruct(&an);
+      lp_dyadic_interval_destruct(&I);
+    } else {
+      lp_upolynomial_delete(f);
+      lp_dyadic_rational_t q; lp_dyadic_rational_construct_from_int(&q, Bv, m); lp_value_construct(&vals[0], LP_VALUE_DYADIC_RATIONAL, &q); lp_dyadic_rational_destruct(&q);
+    }
+    lp_dyadic_rational_destruct(&lo); lp_dyadic_rational_destruct(&hi);
+    val_rat(&vals[1], rnd_in(-3, 3), 1 + rnd(3)); val_rat(&vals[2], rnd_in(-3, 3), 1);
+    T = P_sub(P_scale(P_var(0, 1), 1L << m), P_const(Bv));
   } else {                            /* random */
     *kind = 6;
     val_random(&vals[0]); val_random(&vals[1]); val_random(&vals[2]);
@@ -155,6 +188,7 @@ static lp_polynomial_t* build_poly(lp_polynomial_t* T, int kind) {
   }
   lp_polynomial_t* p;
   if (kind == 8) return T;
+  if (kind == 9) return chance(30) ? P_mul(T, P_add(P_var(1, 2), P_const(1))) : T;      /* the value itself, or times a positive factor */
   if (T && chance(85)) {
     lp_polynomial_t* q = chance(40) ? P_const(chance(50) ? 1 : rnd_in(-3, 3)) : hp_random_poly(0, 3, 1, 2);
     if (lp_polynomial_is_zero(q)) { lp_polynomial_delete(q); q = P_const(1); }
@@ -190,6 +224,13 @@ static lp_polynomial_t* coeff_poly(void) {
 }
 
 /* polynomial with main variable y = x3 as a product of 1-2 factors with coefficients in x0..x2 */
+/* degree in the main variable, computed from the monomials (independent of the variable order in force) */
+static size_t deg_y_acc;
+static void deg_y_cb(const lp_polynomial_context_t* ctx, lp_monomial_t* m, void* data) {
+  (void)ctx; (void)data;
+  for (size_t i = 0; i < m->n; ++i) if (m->p[i].x == hp_x[3] && m->p[i].d > deg_y_acc) deg_y_acc = m->p[i].d;
+}
+static size_t deg_in_y(const lp_polynomial_t* p) { deg_y_acc = 0; lp_polynomial_traverse(p, deg_y_cb, 0); return deg_y_acc; }
 /* does the main variable occur (asked without relying on the variable order in force) */
 static int poly_has_y(const lp_polynomial_t* p) {
   lp_variable_list_t vs; lp_variable_list_construct(&vs);
@@ -301,19 +342,39 @@ static void main_case(int mode) {
   int stale = chance(12); char* tokP = 0; lp_polynomial_t* tw = 0;
   if (stale) hp_stale_begin();
 #define PP() do { if (tokP) { sb_str(tokP); free(tokP); tokP = 0; } else sb_poly(p); } while (0)
-  lp_polynomial_t* T = scenario(&kind);
-  if (T) lp_polynomial_delete(T);
+  lp_polynomial_t* T = scenario(&kind);      /* vanishes at the values (or 0) */
   int degenerate = chance(12);
+  if (degenerate && T) { lp_polynomial_delete(T); T = 0; }
   if (degenerate) {
     static const long s2[] = { -2, 0, 1 };
     for (int i = 0; i < nvals; ++i) lp_value_destruct(&vals[i]);
     nvals = 3; int sgn = chance(50);
     val_root(&vals[0], 2, s2, sgn); val_root(&vals[1], 2, s2, sgn); val_rat(&vals[2], rnd_in(-3, 3), 1);
   }
+  if (kind == 9) { lp_value_destruct(&vals[0]); val_rat(&vals[0], rnd_in(-3, 3), 1 + rnd(2)); }       /* huge coefficients: not for the root / set modes */
   if (kind == 4 && chance(70)) {            /* cubic coordinates make the eliminations expensive: mostly replace by a rational */
     lp_value_destruct(&vals[0]); val_rat(&vals[0], rnd_in(-3, 3), 1 + rnd(2));
   }
   lp_polynomial_t* p = degenerate ? degenerate_poly() : main_poly();
+  if ((kind == 4 || kind == 9) && T) { lp_polynomial_delete(T); T = 0; }      /* the coordinate T is about may have been replaced above */
+  /* keep the eliminations affordable for the library under the sanitizers: deg_y(p) times the degrees of the assigned algebraic
+     numbers bounds the degree of the eliminant; beyond 16 the last irrational coordinates are replaced by rationals */
+  int replaced = 0;
+  { size_t dy = deg_in_y(p);
+    for (int i = nvals - 1; i >= 0; --i) {
+      size_t cost = dy;
+      for (int j = 0; j < nvals; ++j) if (vals[j].type == LP_VALUE_ALGEBRAIC && vals[j].value.a.f) cost *= lp_upolynomial_degree(vals[j].value.a.f);
+      if (cost <= 16) break;
+      if (vals[i].type == LP_VALUE_ALGEBRAIC && vals[i].value.a.f) { lp_value_destruct(&vals[i]); val_rat(&vals[i], rnd_in(-3, 3), 1 + rnd(2)); replaced = 1; }
+    } }
+  if (T && !replaced && chance(30)) {
+    /* two (or three) leading coefficients in y that vanish under the assignment: T*y^6 + c*T*y^5 (+ T*y^7) + p
+       (they cost the library nothing: it drops them before eliminating) */
+    lp_polynomial_t* top = P_add(P_mul(lp_polynomial_new_copy(T), P_var(3, 6)), P_scale(P_mul(lp_polynomial_new_copy(T), P_var(3, 5)), rnd_in(1, 3)));
+    if (chance(40)) top = P_add(top, P_mul(lp_polynomial_new_copy(T), P_var(3, 7)));
+    p = P_add(p, top);
+  }
+  if (T) { lp_polynomial_delete(T); T = 0; }
   if (stale) {
     tw = lp_polynomial_new_copy(p); tokP = hp_tok(p);
     lp_polynomial_set_external(p);
@@ -321,14 +382,6 @@ static void main_case(int mode) {
     lp_polynomial_ensure_order(tw);
   }
   const lp_polynomial_t* Q = stale ? tw : p;      /* whom to ask about the shape of p before the first call */
-  /* keep the eliminations affordable for the library under the sanitizers: deg_y(p) times the degrees of the assigned algebraic
-     numbers bounds the degree of the eliminant; beyond 16 the last irrational coordinates are replaced by rationals */
-  for (int i = nvals - 1; i >= 0; --i) {
-    size_t cost = lp_polynomial_degree(Q);
-    for (int j = 0; j < nvals; ++j) if (vals[j].type == LP_VALUE_ALGEBRAIC && vals[j].value.a.f) cost *= lp_upolynomial_degree(vals[j].value.a.f);
-    if (cost <= 16) break;
-    if (vals[i].type == LP_VALUE_ALGEBRAIC && vals[i].value.a.f) { lp_value_destruct(&vals[i]); val_rat(&vals[i], rnd_in(-3, 3), 1 + rnd(2)); }
-  }
   M = lp_assignment_new(hp_db);
   set_vals();
   lp_polynomial_set_external(p);
@@ -392,8 +445,10 @@ static void main_case(int mode) {
           sb_begin("ev", "rcons"); sb_sp(); PP(); sb_sp(); sb_ulong(k); sb_sp(); sb_long(c); sb_sp(); sb_asg(); sb_sp(); sb_val(&ys[i]); sb_arrow();
           lp_assignment_set_value(M, hp_x[3], &ys[i]);
           int b = lp_polynomial_root_constraint_evaluate(p, k, (lp_sign_condition_t)c, M);
-          lp_assignment_set_value(M, hp_x[3], 0);
           sb_sp(); sb_long(b); sb_emit();
+          /* the value of the main variable must still be there, unchanged */
+          sb_begin("ev", "keep"); sb_sp(); sb_str("3="); sb_val(&ys[i]); sb_arrow(); sb_sp(); sb_str("3="); sb_val(lp_assignment_get_value(M, hp_x[3])); sb_emit();
+          lp_assignment_set_value(M, hp_x[3], 0);
         }
       }
       for (int i = 0; i < ny; ++i) lp_value_destruct(&ys[i]);
